@@ -457,3 +457,210 @@ Proof.
   destruct (ph (tget st r)) eqn:P; cbn in Hh; try discriminate; try congruence.
   destruct r0; auto; exfalso; eapply (E1 r); eauto; try discriminate; rewrite Hr; exact He.
 Qed.
+
+(* once a scope terminated, it stays terminated and none of its tasks ever moves again *)
+Lemma terminated_forever p ls s : prog_ok p = true -> forall st st', inv1 p st ->
+  s_terminated (sget st s) = true -> run p st ls = Some st' ->
+  s_terminated (sget st' s) = true /\ forall t, scope_of p t = s -> tget st' t = tget st t.
+Proof.
+  intros Hok. induction ls as [|l ls IH]; intros st st' I Ht H; cbn in H.
+  - injection H as <-. auto.
+  - destruct (exec p st l) as [st1|] eqn:E; [|discriminate].
+    destruct (terminated_stable p st l st1 s Hok I E Ht) as (T1 & F1).
+    destruct (IH st1 st' (inv1_step p st l st1 Hok I E) T1 H) as (T2 & F2).
+    split; [exact T2|]. intros t Hs. rewrite (F2 t Hs). apply F1, Hs.
+Qed.
+
+Lemma init_err p j : s_err (sget (init p) j) = ENone.
+Proof.
+  unfold sget, init. cbn [scopes]. rewrite nth_upd.
+  destruct ((j =? 0) && (0 <? length (repeat dflt_ss (length p)))); [reflexivity|].
+  destruct (Nat.lt_ge_cases j (length p)).
+  - rewrite nth_repeat. reflexivity.
+  - rewrite nth_overflow by (rewrite repeat_length; assumption). reflexivity.
+Qed.
+
+Lemma result_spec p ls st r res st' : prog_ok p = true ->
+  run p (init p) ls = Some st -> exec p st (LRet r res) = Some st' -> scope_of p r = r ->
+  match fold_left merge (seterrs p r ls) ENone with
+  | ENone => res = ROk /\ ph (tget st r) = PDone ROk /\ (forall x, In x (seterrs p r ls) -> x = ROk)
+  | EErr e => res = RErr e /\ exists pre post, seterrs p r ls = pre ++ RErr e :: post
+                 /\ (forall y, In y pre -> y = ROk) /\ ~ In RPanic (seterrs p r ls)
+  | EPanic => res = RPanic /\ In RPanic (seterrs p r ls)
+  end.
+Proof.
+  intros Hok R E Hr.
+  pose proof (inv1_init p Hok) as I0. pose proof (inv1_run p _ ls st Hok I0 R) as I.
+  pose proof (err_inv_run p ls Hok _ _ I0 (err_inv_init p Hok) R) as EI.
+  pose proof (s_err_run p r ls Hok _ _ I0 R) as S. rewrite init_err in S.
+  destruct (ret_enabled_inv _ _ _ _ _ E) as (Hs & Ht & _ & Hres).
+  pose proof (fold_merge_none (seterrs p r ls)) as F.
+  destruct (fold_left merge (seterrs p r ls) ENone) eqn:X.
+  - destruct (result_ok p st r I EI Hs Ht Hr S) as (A & B). rewrite Hres. auto.
+  - split; [|exact F]. rewrite Hres. unfold scope_result. rewrite S. reflexivity.
+  - split; [|exact F]. rewrite Hres. unfold scope_result. rewrite S. reflexivity.
+Qed.
+
+(* the task that awaits a nested run!() stays in it until that scope returns *)
+Definition callers_ok (p : prog) (st : state) : Prop :=
+  forall r t, s_started (sget st r) = true -> s_returned (sget st r) = false ->
+    s_caller (sget st r) = Some t ->
+    exists pc dl, ph (tget st t) = PWaitRet pc /\ nth_error (td_acts (tdef p t)) pc = Some (ANested r dl)
+                  /\ s_parent (sget st r) = Some (scope_of p t).
+
+Lemma ret_exact p st r res st' : exec p st (LRet r res) = Some st' ->
+  s_returned (sget st' r) = true /\
+  forall i, tget st' i <> tget st i -> s_caller (sget st r) = Some i.
+Proof.
+  intros H. destruct (ret_enabled_inv _ _ _ _ _ H) as (Hs & _).
+  assert (Hlt : (r <? length (scopes st)) = true) by (apply Nat.ltb_lt, sget_lt, Hs).
+  unfold exec in H.
+  destruct (s_started (sget st r) && s_terminated (sget st r) && negb (s_returned (sget st r))
+            && tres_eqb res (scope_result st r)); [|discriminate].
+  destruct (s_caller (sget st r)) as [t|].
+  - destruct (ph (tget st t)); try discriminate. injection H as <-. split.
+    + simp_get. rewrite Nat.eqb_refl, Hlt. reflexivity.
+    + intros i. simp_get. destruct ((i =? t) && (t <? length (tasks st))) eqn:E; [|congruence].
+      apply andb_prop in E as (E & _). apply Nat.eqb_eq in E. congruence.
+  - injection H as <-. split.
+    + simp_get. rewrite Nat.eqb_refl, Hlt. reflexivity.
+    + intros i. simp_get. congruence.
+Qed.
+
+Lemma nested_exact p st t r st' : inv1 p st -> exec p st (LNested t r) = Some st' ->
+  exists pc dl, ph (tget st t) = PRun pc /\ nth_error (td_acts (tdef p t)) pc = Some (ANested r dl)
+    /\ sget st' r = ss_start (Some (scope_of p t)) (Some t) dl
+    /\ ph (tget st' t) = PWaitRet pc /\ t <> r.
+Proof.
+  intros I H. inv_exec H. get_new st.
+  match goal with H : (r =? _) = true |- _ => apply Nat.eqb_eq in H; subst end.
+  match goal with H : (_ <? length (tasks st)) = true |- _ => rename H into Hlt end.
+  match goal with H : ph (tget st t) = PRun _ |- _ => rename H into Hrun end.
+  match goal with H : ph (tget st _) = PNew |- _ => rename H into Hnew end.
+  assert (Htl : (t <? length (tasks st)) = true).
+  { apply Nat.ltb_lt, tget_lt. rewrite Hrun. discriminate. }
+  assert (Hls : forall x, (x <? length (scopes st)) = (x <? length (tasks st))).
+  { intros x. rewrite (i_ls _ _ I), (i_lt _ _ I). reflexivity. }
+  eexists _, _. split; [exact Hrun|]. split; [symmetry; eassumption|].
+  simp_get. rewrite !Nat.eqb_refl, Htl, Hls, Hlt. cbn [andb ph].
+  repeat split; auto. intros ->. congruence.
+Qed.
+
+Lemma strans_links p st l j a b : strans p st l j a b ->
+  (s_started a = true -> s_started b = true /\ s_caller b = s_caller a /\ s_parent b = s_parent a
+                         /\ (s_returned b = s_returned a \/ s_returned b = true))
+  /\ (s_started a = false -> s_started b = false \/ exists t, l = LNested t j).
+Proof.
+  intros T. inversion T; subst; cbn.
+  - split; auto.
+  - split; auto.
+  - split; auto.
+  - unfold set_err. destruct (s_err a), r; cbn; split; auto.
+  - unfold drop_guard. destruct (gmain (tget st t)); [destruct (cancel_rc a - 1 =? 0)|]; cbn; split; auto.
+  - unfold take_guard. destruct (td_main (tdef p c) && (0 <? cancel_rc a)); cbn; split; auto.
+  - split; auto.
+  - split; [congruence|]. intros _. right. eexists. reflexivity.
+Qed.
+
+Lemma callers_init p : prog_ok p = true -> callers_ok p (init p).
+Proof.
+  intros Hok r t Hs _ Hc. exfalso.
+  assert (Hn : (0 <? length p) = true).
+  { unfold prog_ok in Hok. apply andb_prop in Hok as (H & _). apply andb_prop in H as (_ & H). exact H. }
+  unfold sget, init in Hs, Hc. cbn [scopes] in Hs, Hc. rewrite nth_upd, repeat_length, Hn, andb_true_r in Hs, Hc.
+  destruct (r =? 0); [cbn in Hc; discriminate|].
+  destruct (Nat.lt_ge_cases r (length p)).
+  - rewrite nth_repeat in Hs. discriminate.
+  - rewrite nth_overflow in Hs by (rewrite repeat_length; assumption). discriminate.
+Qed.
+
+Lemma callers_step p st l st' : prog_ok p = true -> inv1 p st -> callers_ok p st ->
+  exec p st l = Some st' -> callers_ok p st'.
+Proof.
+  intros Hok I C H r t Hs Hr Hc.
+  pose proof (exec_strans p st l st' H r) as T.
+  (* the scope r was already running before the step, with the same links *)
+  assert (Hold : s_started (sget st r) = true -> s_returned (sget st r) = false ->
+                 s_caller (sget st r) = Some t -> s_parent (sget st' r) = s_parent (sget st r) ->
+                 exists pc dl, ph (tget st' t) = PWaitRet pc /\
+                   nth_error (td_acts (tdef p t)) pc = Some (ANested r dl) /\
+                   s_parent (sget st' r) = Some (scope_of p t)).
+  { intros Hs0 Hr0 Hc0 Hp0. destruct (C r t Hs0 Hr0 Hc0) as (pc & dl & P & N & Pa).
+    destruct (exec_ptrans p st l st' H t) as [E|(_ & Pt)].
+    - exists pc, dl. rewrite E, Hp0. auto.
+    - exfalso. rewrite P in Pt. inversion Pt; subst.
+      + (* LRet r0 Ok moved t: then t is the caller of r0 = r, so r has returned *)
+        destruct (ret_exact _ _ _ _ _ H) as (R1 & R2).
+        destruct (ret_enabled_inv _ _ _ _ _ H) as (S1 & _ & S3 & _).
+        assert (Hcr : s_caller (sget st r0) = Some t).
+        { apply R2. intros Q. rewrite Q, P in *. discriminate. }
+        destruct (C r0 t S1 S3 Hcr) as (pc' & dl' & P' & N' & _).
+        rewrite P in P'. injection P' as <-. rewrite N in N'. injection N' as <- _. congruence.
+      + destruct (ret_exact _ _ _ _ _ H) as (R1 & R2).
+        destruct (ret_enabled_inv _ _ _ _ _ H) as (S1 & _ & S3 & _).
+        assert (Hcr : s_caller (sget st r0) = Some t).
+        { apply R2. intros Q. rewrite Q, P in *. discriminate. }
+        destruct (C r0 t S1 S3 Hcr) as (pc' & dl' & P' & N' & _).
+        rewrite P in P'. injection P' as <-. rewrite N in N'. injection N' as <- _. congruence. }
+  destruct (s_started (sget st r)) eqn:S0.
+  - destruct (strans_links _ _ _ _ _ _ T) as (L & _). destruct (L S0) as (L1 & L2 & L3 & L4).
+    apply Hold; try congruence. destruct L4 as [L4|L4]; congruence.
+  - destruct (strans_links _ _ _ _ _ _ T) as (_ & L). destruct (L S0) as [L1|(t0 & L1)]; [congruence|].
+    subst l. destruct (nested_exact _ _ _ _ _ I H) as (pc & dl & P & N & Sg & P' & Hne).
+    rewrite Sg in Hc. cbn in Hc. injection Hc as <-. exists pc, dl. rewrite Sg. cbn. auto.
+Qed.
+
+Lemma callers_run p ls : prog_ok p = true -> forall st st', inv1 p st -> callers_ok p st ->
+  run p st ls = Some st' -> callers_ok p st'.
+Proof.
+  intros Hok. induction ls as [|l ls IH]; intros st st' I C H; cbn in H.
+  - injection H as <-. exact C.
+  - destruct (exec p st l) as [st1|] eqn:X; [|discriminate].
+    eapply IH; [eapply inv1_step; eauto|eapply callers_step; eauto|exact H].
+Qed.
+
+(* scope r is nested, directly or transitively, in scope s: r's run!() was called by a task of s,
+   or by a task of a scope nested in s *)
+Inductive nested_in (p : prog) (st : state) : nat -> nat -> Prop :=
+| ni_one r t : s_started (sget st r) = true -> s_caller (sget st r) = Some t ->
+    nested_in p st r (scope_of p t)
+| ni_step r t s : s_started (sget st r) = true -> s_caller (sget st r) = Some t ->
+    nested_in p st (scope_of p t) s -> nested_in p st r s.
+
+Lemma terminated_started p st s : inv1 p st -> s_terminated (sget st s) = true -> s_started (sget st s) = true.
+Proof.
+  intros I Ht. destruct (s_started (sget st s)) eqn:E; [reflexivity|].
+  destruct (i_sok _ _ I s) as (Ha & _). rewrite (Ha E) in Ht. discriminate.
+Qed.
+
+Lemma caller_scope_terminated p st r t : inv1 p st -> callers_ok p st ->
+  s_started (sget st r) = true -> s_caller (sget st r) = Some t ->
+  s_terminated (sget st (scope_of p t)) = true -> s_returned (sget st r) = true.
+Proof.
+  intros I C Hs Hc Ht. destruct (s_returned (sget st r)) eqn:R; [reflexivity|exfalso].
+  destruct (C r t Hs R Hc) as (pc & dl & P & _).
+  pose proof (proj1 (terminated_iff_no_live_task p st _ I (terminated_started p st _ I Ht)) Ht t eq_refl) as Hh.
+  rewrite P in Hh. discriminate.
+Qed.
+
+(* when a scope has terminated, every scope nested in it, directly or transitively, has returned
+   (hence terminated: none of its tasks is live) *)
+Lemma nested_joined p st r s : inv1 p st -> callers_ok p st -> nested_in p st r s ->
+  s_terminated (sget st s) = true ->
+  s_returned (sget st r) = true /\ forall t, scope_of p t = r -> holding (ph (tget st t)) = false.
+Proof.
+  intros I C N. induction N as [r t Hs Hc | r t s Hs Hc N IH]; intros Ht.
+  - pose proof (caller_scope_terminated p st r t I C Hs Hc Ht) as R. split; [exact R|].
+    destruct (i_sok _ _ I r) as (_ & _ & _ & Hd).
+    apply (terminated_iff_no_live_task p st r I Hs). apply Hd, R.
+  - destruct (IH Ht) as (R1 & _).
+    destruct (i_sok _ _ I (scope_of p t)) as (_ & _ & _ & Hd1).
+    pose proof (caller_scope_terminated p st r t I C Hs Hc (Hd1 R1)) as R. split; [exact R|].
+    destruct (i_sok _ _ I r) as (_ & _ & _ & Hd).
+    apply (terminated_iff_no_live_task p st r I Hs). apply Hd, R.
+Qed.
+
+Lemma callers_reachable p st : prog_ok p = true -> reachable p st -> callers_ok p st.
+Proof.
+  intros Hok (ls & H). eapply callers_run; [exact Hok|apply inv1_init, Hok|apply callers_init, Hok|exact H].
+Qed.
